@@ -377,7 +377,7 @@ def run_c06(prop, tier):
         for name, consts in cfgs.items():
             m = "MC_C06_" + name
             common.write_model(wd, m, "TransitRecords", consts,
-                               invariants=["PrefixInv", "HungUpWhenBad", "NoReadLeftBehind", "ConsumerTruth"],
+                               invariants=["PrefixInv", "HungUpWhenBad", "NoReadLeftBehind", "ConsumerNotLeftBehind", "ConsumerTruth"],
                                properties=["NothingAfterTamper"])
             r = tlc.run(m + ".tla", m + ".cfg", cwd=wd.path, timeout=1800)
             cov["tlc_configs"][name] = {"distinct_states": r.distinct, "states_generated": r.generated, "depth": r.depth,
